@@ -170,6 +170,10 @@ def _read_inputs(ex, f, c, m, params):
             inp[pn] = c.bind[pn] if not callable(c.bind[pn]) else None
             continue
         v = ex.vars[pn]
+        if pn in getattr(c, "lists", ()):
+            n_outer = max(0, _num(m.eval(ex.entry_heap[(v.t.id, "len")], model_completion=True)))
+            inp[pn] = [[] for _ in range(n_outer)]      # inner lists start empty (only this case is generated)
+            continue
         if pt.kind == "arr":
             a = v.t
             shape = [max(0, _num(m.eval(d, model_completion=True))) for d in a.shape]
@@ -373,7 +377,7 @@ class SpecEval:
             "sqrt": lambda x: math.sqrt(x) if x >= 0 else float("nan"), "isnan": lambda x: _isfloat(x) and math.isnan(x),
             "all": all, "any": any, "range": range, "len": len, "int": int, "float": float, "True": True, "False": False,
             "extent": lambda x: int(np.size(x)), "contiguous": lambda x: bool(x.flags["C_CONTIGUOUS"]),
-            "rowsum": lambda A, a: int(np.asarray(A)[a].sum()), "floor": math.floor, "fabs": abs, "INT32": 2147483647,
+            "rowsum": lambda A, a: int(np.asarray(A)[a].sum()), "mult": lambda L, j, k: list(L[j]).count(k), "floor": math.floor, "fabs": abs, "INT32": 2147483647,
         }
         for g in self.c.ghost:
             ns[g] = (lambda name: (lambda *a: self.ghost(name, a)))(g)
@@ -538,11 +542,16 @@ class _InOld(ast.NodeTransformer):
         return ast.Call(ast.Name("_oldv", ast.Load()), [ast.Constant(n.id), n], [])
 
 
-def check_case(contract, inputs, after, result):
+def check_case(contract, inputs, after, result, only_frame=False):
     """-> list of (clause, 'holds' | 'violated' | 'skipped', detail)"""
     ev = SpecEval(contract, inputs, after, result)
     out = []
-    for e in contract.ensures:
+    for pn, before in inputs.items():
+        if isinstance(before, np.ndarray) and pn not in (contract.modifies or ()) and pn in after:
+            same = np.array_equal(before, after[pn], equal_nan=(before.dtype.kind == "f"))
+            out.append((f"(frame) array parameter {pn} is not written", "holds" if same else "violated",
+                        "" if same else f"{pn} before {before.tolist()} after {np.asarray(after[pn]).tolist()}"))
+    for e in ([] if only_frame else contract.ensures):
         try:
             extra = {"_oldv": lambda name, cur: ev.pre[name] if name in ev.pre else cur}
             ok = ev.eval_text(e, extra)
@@ -589,6 +598,22 @@ def run_rtc(job, src_dir, count=12, seed=0, extra_inputs=()):
         if not cases:
             out["inapplicable"] = "no input satisfying the requires found in the small scope"
             return out
+        if getattr(job, "only_kinds", None):
+            # frame-only run (C06): the frame must hold for every input, also outside the arithmetic assumptions of
+            # the functional contract - add variants with NaN / inf samples in the float arrays
+            rng = random.Random(seed + 7)
+            extra = []
+            for c0 in cases[:6]:
+                for special in (float("nan"), float("inf")):
+                    c1 = {k: (v.copy() if isinstance(v, np.ndarray) else v) for k, v in c0.items()}
+                    hit = False
+                    for k, v in c1.items():
+                        if isinstance(v, np.ndarray) and v.dtype.kind == "f" and v.size:
+                            v.flat[rng.randrange(v.size)] = special
+                            hit = True
+                    if hit:
+                        extra.append(c1)
+            cases = cases + extra
         order = [pn for pn, _ in f.params]
         got = call_real(src_dir, job.module, job.func, order, cases)
         if got.get("missing"):
@@ -616,7 +641,8 @@ def run_rtc(job, src_dir, count=12, seed=0, extra_inputs=()):
                                         + ("divzero" if kind == "ZeroDivisionError" else "bounds" if kind == "IndexError" else "memory safety") + ")",
                                         "detail": r["error"], "inputs": {k: jsonable(v) for k, v in inp.items()}})
                 continue
-            for clause, st, detail in check_case(job.contract, inp, r["after"], r["result"]):
+            for clause, st, detail in check_case(job.contract, inp, r["after"], r["result"],
+                                                 only_frame=bool(getattr(job, "only_kinds", None))):
                 if st == "skipped":
                     out["skipped"][clause] = detail
                     continue
@@ -655,7 +681,8 @@ def _rtc_worker(args):
 def run_layer(jobs, src_dir, tier="quick", seed=0, workers=10, only=None, extra=None):
     """Run-time contract check of every Cython kernel job with a postcondition.  -> list of run_rtc results"""
     from concurrent.futures import ProcessPoolExecutor
-    sel = [j for j in jobs if j.lang == "cy" and j.contract.ensures and (only is None or j.tag in only)]
+    sel = [j for j in jobs if j.lang == "cy" and (j.contract.ensures or getattr(j, "only_kinds", None))
+           and (only is None or j.tag in only)]
     if not sel:
         return []
     count = 10 if tier == "quick" else 40
